@@ -25,6 +25,7 @@ type TermSearcher struct {
 	options     search.SearcherOptions
 	scorer      search.Scorer
 	queryTerm   string
+	min         int
 }
 
 func NewTermSearcher(indexReader search.Reader, term, field string, boost float64, scorer search.Scorer,
@@ -115,7 +116,7 @@ func (s *TermSearcher) Close() error {
 }
 
 func (s *TermSearcher) Min() int {
-	return 0
+	return s.min
 }
 
 func (s *TermSearcher) DocumentMatchPoolSize() int {
